@@ -1,5 +1,7 @@
 import Hoot.Oracle.BodyW
 import Hoot.Oracle.BodyR
+import Hoot.Oracle.Heads
+import Hoot.Oracle.Expect
 
 /-! Dispatch of the per-property oracles. -/
 
@@ -17,4 +19,8 @@ def oracleFor (pid : String) (c : TCase) : Verdict :=
   | "C19" => (match noPanic c with | .ok => oracleC19 c | v => v)
   | "C07" => (match noPanic c with | .ok => oracleC07 c | v => v)
   | "C08" => (match noPanic c with | .ok => oracleC08 c | v => v)
+  | "C05" => oracleC05 c
+  | "C06" => (match noPanic c with | .ok => oracleC06 c | v => v)
+  | "C11" => oracleC11 c
+  | "C20" => oracleC20 c
   | _ => noPanic c
